@@ -40,12 +40,31 @@ static void *worker_proc(void *ctx) {
 
 static double now_ms() { struct timeval tv; gettimeofday(&tv, 0); return tv.tv_sec * 1000.0 + tv.tv_usec / 1000.0; }
 
+// a writer that may have to wait for room (policy BLOCK_WRITER): runs in its own thread
+struct PendingEnq { std::thread th; std::atomic<int> done{0}; bool ok = false; std::string m; };
+
 static void run_scenario(const std::vector<std::vector<std::string>> &ops, FILE *out) {
   async_runtime_t *rt = async_runtime_init();
   async_queue_t *q = 0;
   async_worker_t *w = 0;
+  bool blocking = false;
+  PendingEnq *pend = 0;
+  auto wait_done = [&](int ms) { for (int i = 0; i < ms * 4 && !pend->done.load(); i++) usleep(250); return pend->done.load() != 0; };
   for (auto &op : ops) {
     const std::string &o = op[0];
+    if (o == "enq" && q && blocking) {
+      if (pend) continue;              // the generator never enqueues while a writer waits
+      pend = new PendingEnq; pend->m = op[1];
+      PendingEnq *pe = pend; async_queue_t *qq = q;
+      pend->th = std::thread([pe, qq]() { pe->ok = async_queue_enqueue(qq, pe->m.c_str(), pe->m.size() + 1); pe->done.store(1); });
+      if (wait_done(150)) {
+        pend->th.join();
+        fprintf(out, "{\"e\":\"Enq\",\"m\":\"%s\",\"ok\":%s}\n", pend->m.c_str(), pend->ok ? "true" : "false");
+        delete pend; pend = 0;
+      } else fprintf(out, "{\"e\":\"EnqBlocked\",\"m\":\"%s\"}\n", pend->m.c_str());
+      fflush(out);
+      continue;
+    }
     if (o == "post") {
       int r = async_runtime_post_completion(rt, (uintptr_t)atoll(op[1].c_str()), (uintptr_t)atoll(op[2].c_str()));
       fprintf(out, "{\"e\":\"Post\",\"key\":%s,\"data\":%s,\"ret\":%d}\n", op[1].c_str(), op[2].c_str(), r);
@@ -70,8 +89,9 @@ static void run_scenario(const std::vector<std::vector<std::string>> &ops, FILE 
     } else if (o == "qcreate") {
       if (q) async_queue_destroy(q);
       int cap = atoi(op[1].c_str()); bool drop = op[2] == "drop";
-      q = async_queue_create(cap, 64, drop ? ASYNC_QUEUE_DROP_OLDEST : (async_queue_flags_t)0);
-      fprintf(out, "{\"e\":\"QCreate\",\"cap\":%d,\"drop\":%s}\n", cap, drop ? "true" : "false");
+      blocking = op[2] == "block";
+      q = async_queue_create(cap, 64, drop ? ASYNC_QUEUE_DROP_OLDEST : blocking ? ASYNC_QUEUE_BLOCK_WRITER : (async_queue_flags_t)0);
+      fprintf(out, "{\"e\":\"QCreate\",\"cap\":%d,\"policy\":\"%s\"}\n", cap, op[2].c_str());
     } else if (o == "enq" && q) {
       bool ok = async_queue_enqueue(q, op[1].c_str(), op[1].size() + 1);
       fprintf(out, "{\"e\":\"Enq\",\"m\":\"%s\",\"ok\":%s}\n", op[1].c_str(), ok ? "true" : "false");
@@ -79,6 +99,12 @@ static void run_scenario(const std::vector<std::vector<std::string>> &ops, FILE 
       char buf[64]; size_t sz = 0; buf[0] = 0;
       bool ok = async_queue_dequeue(q, buf, sizeof buf, &sz);
       fprintf(out, "{\"e\":\"Deq\",\"m\":\"%s\",\"ok\":%s}\n", ok ? buf : "", ok ? "true" : "false");
+      if (pend && ok) {                // a dequeue made room: the waiting writer must get through now
+        bool fin = wait_done(3000);
+        fprintf(out, "{\"e\":\"EnqResumed\",\"m\":\"%s\",\"ok\":%s}\n", pend->m.c_str(), fin && pend->ok ? "true" : "false");
+        if (fin) { pend->th.join(); delete pend; } else pend->th.detach();
+        pend = 0;
+      }
     } else if (o == "qstats" && q) {
       async_queue_stats_t st; async_queue_get_stats(q, &st);
       fprintf(out, "{\"e\":\"QStats\",\"size\":%zu,\"dropped\":%llu}\n", st.current_size, (unsigned long long)st.dropped_count);
@@ -105,6 +131,7 @@ static void run_scenario(const std::vector<std::vector<std::string>> &ops, FILE 
     }
     fflush(out);
   }
+  if (pend) pend->th.detach();
 }
 
 static int replay(const char *script, const char *outf) {
@@ -148,9 +175,10 @@ static int stress(int seconds, const char *outf) {
   FILE *out = fopen(outf, "w");
   async_runtime_t *rt = async_runtime_init();
   async_queue_t *q = async_queue_create(64, 32, (async_queue_flags_t)0);
+  async_queue_t *qb = async_queue_create(4, 32, ASYNC_QUEUE_BLOCK_WRITER);   // writers wait for room: nothing may be lost
   const int NP = 4;
   std::atomic<bool> stop{false};
-  std::atomic<long> posted{0}, enq_ok{0};
+  std::atomic<long> posted{0}, enq_ok{0}, enqb_ok{0};
   std::vector<std::thread> th;
   std::vector<std::vector<long>> deq_seen(NP);
   for (int p = 0; p < NP; p++) {
@@ -162,6 +190,7 @@ static int stress(int seconds, const char *outf) {
         if (n % 7 == 0) async_runtime_wakeup(rt);
         char m[32]; snprintf(m, sizeof m, "%d:%ld", p, n);
         if (async_queue_enqueue(q, m, strlen(m) + 1)) enq_ok++;
+        if (n % 5 == 0 && async_queue_enqueue(qb, m, strlen(m) + 1)) enqb_ok++;
         if (n % 64 == 0) std::this_thread::sleep_for(std::chrono::microseconds(200));
       }
     });
@@ -190,8 +219,8 @@ static int stress(int seconds, const char *outf) {
   });
   // consumer = this thread
   std::map<std::pair<long, long>, int> got;
-  long delivered = 0, merged_or_unknown = 0, deq = 0, fifo_viol = 0;
-  std::vector<long> last(NP, 0);
+  long delivered = 0, merged_or_unknown = 0, deq = 0, fifo_viol = 0, deqb = 0, fifob_viol = 0;
+  std::vector<long> last(NP, 0), lastb(NP, 0);
   double tend = now_ms() + seconds * 1000.0;
   auto drain = [&]() {
     io_event_t evs[64];
@@ -210,14 +239,22 @@ static int stress(int seconds, const char *outf) {
       if (sscanf(buf, "%d:%ld", &p, &n2) == 2 && p >= 0 && p < NP) { if (n2 <= last[p]) fifo_viol++; last[p] = n2; }
       deq++;
     }
+    while (async_queue_dequeue(qb, buf, sizeof buf, &sz)) {
+      int p; long n2;
+      if (sscanf(buf, "%d:%ld", &p, &n2) == 2 && p >= 0 && p < NP) { if (n2 <= lastb[p]) fifob_viol++; lastb[p] = n2; } else fifob_viol++;
+      deqb++;
+    }
     return n;
   };
   while (now_ms() < tend) drain();
   stop = true;
-  for (auto &t : th) t.join();
-  for (int idle = 0; idle < 3;) { if (drain() == 0 && async_queue_is_empty(q)) idle++; else idle = 0; }
-  fprintf(out, "{\"e\":\"Stress\",\"posted\":%ld,\"delivered\":%ld,\"bad_events\":%ld,\"enq_ok\":%ld,\"deq\":%ld,\"fifo_viol\":%ld,\"lifecycles\":%ld,\"join_fail\":%ld,\"timer_ticks\":%d,\"timer_after_stop\":%d}\n",
-          posted.load(), delivered, merged_or_unknown, enq_ok.load(), deq, fifo_viol, lifecycle, join_fail, g_timer_ticks.load(), g_timer_after_stop.load());
+  std::atomic<bool> joined{false};
+  std::thread joiner([&]() { for (auto &t : th) t.join(); joined = true; });
+  while (!joined.load()) drain();        // writers waiting for room in qb need the consumer to go on
+  joiner.join();
+  for (int idle = 0; idle < 3;) { if (drain() == 0 && async_queue_is_empty(q) && async_queue_is_empty(qb)) idle++; else idle = 0; }
+  fprintf(out, "{\"e\":\"Stress\",\"posted\":%ld,\"delivered\":%ld,\"bad_events\":%ld,\"enq_ok\":%ld,\"deq\":%ld,\"fifo_viol\":%ld,\"enqb_ok\":%ld,\"deqb\":%ld,\"fifob_viol\":%ld,\"lifecycles\":%ld,\"join_fail\":%ld,\"timer_ticks\":%d,\"timer_after_stop\":%d}\n",
+          posted.load(), delivered, merged_or_unknown, enq_ok.load(), deq, fifo_viol, enqb_ok.load(), deqb, fifob_viol, lifecycle, join_fail, g_timer_ticks.load(), g_timer_after_stop.load());
   fclose(out);
   return 0;
 }
